@@ -193,3 +193,33 @@ native_bounded("C02", "observation-composites", "bounded/obs_composites.py",
 native_bounded("C09", "observation-ground-truth", "bounded/obs_truth.py",
                "same sweep as observation-composites",
                "selected leaves (node power, service/application state and visible-vs-true health, folder/file health, NIC status, user sessions) compared with the simulator objects themselves after every change")
+
+# ---- link load band (C09: "utilisation bands" = tenths... of the documented table: 0 = no load, otherwise band k for (k-1)/9 <= load/bandwidth < k/9) ----
+contract("src/primaite/game/agent/observations/link_observation.py::LinkObservation.observe#band", props=["C09", "C02"],
+         region=("block", {"start": "bandwidth = link_state[", "count": 3}),
+         types={"self": "LinkObservation", "link_state": "Dict[str, Any]"},
+         requires=["'bandwidth' in link_state and 'current_load' in link_state",
+                   # Link.describe_state reports both as floats
+                   "isinstance(link_state['bandwidth'], float) and link_state['bandwidth'] > 0",
+                   "isinstance(link_state['current_load'], float) and link_state['current_load'] >= 0"],
+         ensures=[("zero_iff_idle", "(utilisation_category == 0) == (link_state['current_load'] == 0)"),
+                  ("documented_band", "implies(link_state['current_load'] > 0, utilisation_category >= 1"
+                                      " and utilisation_category - 1 <= 9 * (link_state['current_load'] / link_state['bandwidth'])"
+                                      " and 9 * (link_state['current_load'] / link_state['bandwidth']) < utilisation_category)")],
+         modifies=[], allocates=True)
+
+# ---- ACL rules: what a rule reports is what it holds (port 0 is a port, not "any") ------------------------------------------------------------
+contract("src/primaite/simulator/network/hardware/nodes/network/router.py::ACLRule.describe_state", props=["C09"],
+         ensures=[("ports_reported_as_held", "result['src_port'] == self.src_port and result['dst_port'] == self.dst_port"),
+                  ("action_and_count", "result['action'] == self.action.value and result['match_count'] == self.match_count")],
+         modifies=[], allocates=True)
+
+# ---- the host observation hands its scan options down to its parts (C09: "visible value exactly when the scenario says scanning is required") --
+contract("src/primaite/game/agent/observations/host_observations.py::HostObservation.from_config#applications", props=["C09"],
+         region=("block", {"start": "for application_config in config.applications:", "count": 1}),
+         types={"config": "HostObservation.ConfigSchema"},
+         ensures=[("each_application_gets_the_applications_option",
+                   "forall(j, 0, len(config.applications), config.applications[j].applications_requires_scan == config.applications_requires_scan)")],
+         modifies=["ApplicationObservation.ConfigSchema.applications_requires_scan", "ApplicationObservation.ConfigSchema.thresholds"], allocates=True,
+         loops={3: {"inv": [("done_so_far", "forall(j, 0, _i, config.applications[j].applications_requires_scan == config.applications_requires_scan)")],
+                    "modifies": ["ApplicationObservation.ConfigSchema.applications_requires_scan", "ApplicationObservation.ConfigSchema.thresholds"]}})
